@@ -502,6 +502,42 @@ func (w *World) Deliver(e *Envelope) lib.ErrorI {
 	return err
 }
 
+// Spam hands every live honest node what an ACTIVE adversary can always send with its own key: a pacemaker
+// message claiming an absurd round and an ELECTION_VOTE for a far-future round that names the recipient.
+// Both are validly signed; a correct node must neither lose the votes it is collecting nor jump rounds on them.
+func (w *World) Spam(rh, round uint64) {
+	byz := w.Cfg.Byz
+	if byz < 0 || w.Down(byz) {
+		return
+	}
+	key := w.Nodes[byz].Key
+	view := func(r uint64, p lib.Phase) *lib.View {
+		return &lib.View{NetworkId: NetworkID, ChainId: ChainID, Height: ChainHeight, RootHeight: rh, Round: r, Phase: p}
+	}
+	for i, n := range w.Nodes {
+		if i == byz || !w.Live(i) {
+			continue
+		}
+		pm := &bft.Message{Qc: &lib.QuorumCertificate{Header: view(1_000_000_000, lib.Phase_ROUND_INTERRUPT)}}
+		// a fresh far-future round every time (the virtual clock is strictly increasing between timer generations)
+		ev := &bft.Message{Qc: &lib.QuorumCertificate{Header: view(round+1000+uint64(w.Now), lib.Phase_ELECTION_VOTE), ProposerKey: n.Key.PublicKey().Bytes()}}
+		for _, m := range []*bft.Message{pm, ev} {
+			if err := m.Sign(key); err != nil {
+				continue
+			}
+			err := n.BFT.HandleMessage(clone(m))
+			w.Calls++
+			if w.TraceOn {
+				es := ""
+				if err != nil {
+					es = " ERR " + strings.ReplaceAll(err.Error(), "\n", " ")
+				}
+				w.tracef("spam %s n%d->n%d claimed round %d%s", KindOf(m), byz, i, m.Qc.Header.Round, es)
+			}
+		}
+	}
+}
+
 // BumpRoot delivers a committee-preserving root-chain update to node i: the NEW_COMMITTEE branch of BFT.Start.
 func (w *World) BumpRoot(i int, rh uint64) {
 	n := w.Nodes[i]
